@@ -114,7 +114,7 @@ CLAIMED['C06'] = {
     'category': 'exploration',
     'text': 'Bounded and partial, on the modules emitted for the probe theories WITHOUT non-surjective conclusions: in every explored history close()/close_until() returned and '
             'allocated no element id of any type (so the number of classes cannot grow). Termination itself is a liveness claim no contract decides; it is only observed on the '
-            'explored runs. The compile-time surjectivity check is not covered. The runtime mechanism "emptiness tests are exact" is proved under C08, is_dirty exactness under C04.',
+            'explored runs. The compile-time half is checked as black-box verdicts only (15 programs without `!`: 8 must be rejected, 7 neighbours accepted); the surjectivity analysis itself is not under contract. The runtime mechanism "emptiness tests are exact" is proved under C08, is_dirty exactness under C04.',
     'design_ref': '§6 C06',
     'note': 'Bounded stand-in, labelled exploration, never counted as proved.',
     'technique': 'bounded native execution of an executable postcondition of the generated close on emitted probe modules (labelled bounded)',
@@ -189,11 +189,11 @@ CLAIMED['C15'] = {
     'category': 'exploration',
     'text': 'Bounded and partial, on the modules emitted for the probe theories with enum types: after every close() in every explored history every element of an enum type destructures '
             'into at least one constructor case (<enum>_case cannot panic), <enum>_cases lists exactly the constructor applications equal to the element, and new_<enum>(Case) returns the '
-            'value of that constructor application (existing or fresh). The static half (no accepted rule can make a non-constructor term defined in an enum type) is a Datalog check evaluated '
-            'by generated code and is not covered.',
+            'value of that constructor application (existing or fresh). The static half (no accepted rule can make a non-constructor term defined in an enum type) is checked as black-box verdicts only: 8 programs that '
+            'must be rejected, 5 neighbours that must be accepted, and a scan of the emitted enum API; the Datalog check itself is not under contract.',
     'design_ref': '§6 C15',
     'note': 'Bounded stand-in, labelled exploration, never counted as proved. Two enum probes.',
-    'technique': 'bounded native execution of executable contracts of the generated enum API on emitted probe modules (labelled bounded)',
+    'technique': 'bounded native execution of executable contracts of the generated enum API on emitted probe modules + must-reject/must-accept compiler verdicts (labelled bounded)',
 }
 CLAIMED['C19'] = {
     'category': 'exploration',
